@@ -18,7 +18,7 @@ func init() {
 			"R4 dangling separator: a constant piece beginning or ending with ',' next to sqlJoin(x.F, …) is guarded when N.F may be empty; " +
 			"R5 token gluing: an operator printed directly in front of an operand whose SQL may start with the same character ('-' '-') forms a different token. " +
 			"C04 (SQL() total), C07 (parentheses) and C15 (quoting) cover other necessary conditions. Does not decide: ordering of the printed pieces, nested interactions, equality of the two trees.",
-		Rules: []ruleFn{ruleC01R1, ruleC01R2, ruleC01R3, ruleC01R4, ruleC01R5, ruleC01R6, ruleC02R4, ruleC15R1, ruleC07R2, ruleC07R4, ruleC14R2, ruleC01R7, ruleC05R6},
+		Rules: []ruleFn{ruleC01R1, ruleC01R2, ruleC01R3, ruleC01R4, ruleC01R5, ruleC01R6, ruleC02R4, ruleC15R1, ruleC07R2, ruleC07R4, ruleC14R2, ruleC01R7, ruleC05R6, ruleC14R11, ruleC01R8},
 	})
 }
 
@@ -1171,5 +1171,97 @@ func ruleC01R7(w *World, r *Report) {
 	}
 	if n == 0 {
 		r.errorf("no operand printed directly before a '.' piece found (SelectorExpr, DotStar expected)")
+	}
+}
+
+// ruleC01R8: a token that every production of N has to consume is printed by N on all of its printed forms or on
+// none of them (then a neighbour prints it, C01/R2). Printing it on some forms only — "the colon is optional in front
+// of a sub-message" — yields text that the parser reads with another production: name {…} is not name: {…}.
+func ruleC01R8(w *World, r *Report) {
+	const rule = "C01/R8"
+	r.rule(rule, "a constant keyword/punctuation consumed by an expect call that dominates every allocation of N is contained in the constant text of every printed form of SQL(N), or of none", 100)
+	cat := w.Catalog()
+	by := w.sitesByType()
+	kinds := w.lexerKinds()
+	for _, ns := range cat.Structs {
+		sites := by[ns.Name]
+		if len(sites) == 0 || strings.HasPrefix(ns.Name, "Bad") {
+			continue
+		}
+		pm := w.PrintModel(ns)
+		if pm == nil || len(pm.seqs) == 0 || pm.opaque {
+			continue
+		}
+		// tokens required at every site
+		var req map[string]bool
+		for _, si := range sites {
+			here := map[string]bool{}
+			fn := si.al.Parent()
+			for _, b := range fn.Blocks {
+				for i, in := range b.Instrs {
+					call, ok := in.(*ssa.Call)
+					if !ok {
+						continue
+					}
+					callee := call.Call.StaticCallee()
+					if callee == nil || fnPkgPath(callee) != modRoot || len(call.Call.Args) != 2 || (callee.Name() != "expect" && callee.Name() != "expectKeywordLike") {
+						continue
+					}
+					s, ok := constString(call.Call.Args[1])
+					if !ok || (callee.Name() == "expect" && (!kinds[s] || strings.HasPrefix(s, "<") && strings.HasSuffix(s, ">") && len(s) > 2 && s != "<>")) {
+						continue
+					}
+					ab := si.al.Block()
+					if (b == ab && i < indexOf(ab, si.al)) || (b != ab && b.Dominates(ab)) {
+						here[strings.ToUpper(s)] = true
+					}
+				}
+			}
+			if req == nil {
+				req = here
+			} else {
+				for k := range req {
+					if !here[k] {
+						delete(req, k)
+					}
+				}
+			}
+		}
+		construct := "required tokens of ast." + ns.Name + " on every printed form"
+		if len(req) == 0 {
+			continue
+		}
+		// words of each printed form (constant pieces only)
+		var partial []string
+		for tok := range req {
+			with, without := 0, 0
+			for _, seq := range pm.seqs {
+				has := false
+				for _, p := range seq {
+					if p.kind != "const" && p.kind != "opt" && p.kind != "stropt" {
+						continue
+					}
+					for _, wd := range sqlWords(p.text) {
+						if wd == tok {
+							has = true
+						}
+					}
+				}
+				if has {
+					with++
+				} else {
+					without++
+				}
+			}
+			if with > 0 && without > 0 {
+				partial = append(partial, fmt.Sprintf("%q is printed on %d of %d forms", tok, with, with+without))
+			}
+		}
+		sort.Strings(partial)
+		if len(partial) > 0 {
+			r.bad(rule, construct, w.pos(pm.fn.Pos()), fmt.Sprintf("every %s is parsed after consuming the token, but (*%s).SQL prints it on some of its forms only (%s): the other forms are read by another production", ns.Name, ns.Name, strings.Join(partial, "; ")))
+		} else {
+			r.ok(rule, construct, w.pos(pm.fn.Pos()), fmt.Sprintf("%d required token(s), each on all printed forms or on none", len(req)))
+		}
 	}
 }
